@@ -58,6 +58,8 @@ def run(ctx):
     ctx.attempt(r54, ctx, rep, sv)
     ctx.attempt(r55, ctx, rep)
     ctx.attempt(r512, ctx, rep)
+    rep.rule('R5.14', 'rows of a chunk file are written with one pickle.dump and read back with one pickle.load each: no Pickler / Unpickler object (whose memo would span records) in petl.transform.sorts')
+    ctx.attempt(r514, ctx, rep)
     rep.rule('R5.13', 'key=None sorts by the header fields: the key function is built from the positions 0..len(header)-1 (missing cells None, cells beyond the header ignored), not from the raw row')
     ctx.attempt(r513, ctx, rep, nc)
     # a look-ahead row must not be tested by truthiness (shared with C12 R12.7, restricted to sorts.py)
@@ -679,3 +681,28 @@ def r513(ctx, rep, nc):
         break
     if not seen:
         rep.undecided('R5.13', nc, 'key function when key is None', 'no rows.sort(key=...) found on that path', nc.node)
+
+
+# ------------------------------------------------------------------------ R5.14
+def r514(ctx, rep):
+    """A Pickler / Unpickler keeps its memo from one dump / load to the next.  The chunk files hold one independent pickle
+    per row: a reader with a shared memo resolves the back-references of a later row (the same object in two cells)
+    against an earlier row, a writer with a shared memo emits back-references the per-row reader cannot resolve."""
+    n = 0
+    bad = []
+    for fn in ctx.functions(['petl.transform.sorts']):
+        for x in own_nodes(fn.node):
+            if isinstance(x, ast.Call):
+                f = norm(x.func)
+                if f in ('pickle.dump', 'pickle.load', 'pickle.dumps', 'pickle.loads'):
+                    n += 1
+                elif f.split('.')[-1] in ('Pickler', 'Unpickler'):
+                    bad.append((fn, x))
+    for fn, x in bad:
+        rep.violated('R5.14', fn, norm(x)[:60], 'a %s object is used for the rows of a chunk file: its memo spans records, so a row '
+                     'that holds the same object in two cells is read back with a cell of an EARLIER row in its place (only on the '
+                     'spilled path, i.e. depending on buffersize)' % norm(x.func).split('.')[-1], x)
+    if not bad:
+        rep.held('R5.14', ('petl.transform.sorts', '*'), 'one pickle.dump / pickle.load per row', '%d call sites' % n, None)
+    if n < 2 and not bad:
+        raise AnalysisError('anchor vanished: pickle.dump / pickle.load of the chunk files')
